@@ -91,6 +91,7 @@ def canon_gs(gs, names):
                    rng=[int(x) for x in aw.rngwords(gs.rng[n])[0][:2]], inputs={})
         for m, i in gs.inputs[n].items():
             ent["inputs"][m] = [[int(i.seq[j]), tk(i.ts_sent[j])[0], tk(i.ts_recv[j])[0], int(i.data.a[j][0])] for j in range(i.seq.shape[0])]
+            if hasattr(i.delay_dist, "idx"): ent.setdefault("delay_model", {})[m] = int(i.delay_dist.idx)      # the delay model the node carries in its inputs
         d["nodes"][n] = ent
     return d
 
@@ -151,6 +152,34 @@ def reshape_graph(cg, cfg, spec, seed):
             if b == long_sink: ed.seq_in[ed.seq_in > 0] = -1         # only messages consumed by step 0 remain
             if a == long_sink:
                 ed.seq_in[ed.seq_out > 0] = -1; ed.ts_recv[ed.seq_out > 0] = -1; ed.seq_out[ed.seq_out > 0] = -1
+    if spec.get("trim_after_sup"):
+        # the user cut the recording at the last supervisor step: vertices that end after it starts are removed (with their messages), and the arrays
+        # are shortened accordingly - so a node's LAST array row is a vertex that a full compiled rollout executes (with prune=False)
+        supn = cfg["sup"]; sv = verts[supn]
+        E_ = sv.seq.shape[0]
+        # rollout(max_steps = partitions - 1) executes the partitions 0 .. P-2 (P = the smallest number of supervisor vertices over the episodes)
+        Pmin = int((sv.seq >= 0).sum(axis=-1).min())
+        for e in range(E_):
+            if Pmin < 2: continue
+            t_last = sv.ts_start[e][Pmin - 2]
+            for n, v in verts.items():
+                if n == supn: continue
+                rm = (v.seq[e] >= 0) & (v.ts_end[e] > t_last)
+                first = int(v.seq[e][rm].min()) if rm.any() else None
+                v.seq[e][rm] = -1; v.ts_start[e][rm] = -1; v.ts_end[e][rm] = -1
+                if first is None: continue
+                for (a, b), ed in edges.items():
+                    if a == n:
+                        m = ed.seq_out[e] >= first
+                        ed.seq_out[e][m] = -1; ed.seq_in[e][m] = -1; ed.ts_recv[e][m] = -1
+                    if b == n:
+                        ed.seq_in[e][ed.seq_in[e] >= first] = -1
+        for n, v in list(verts.items()):
+            keep = max(1, int((v.seq >= 0).sum(axis=-1).max()))
+            verts[n] = base.Vertex(seq=v.seq[:, :keep], ts_start=v.ts_start[:, :keep], ts_end=v.ts_end[:, :keep])
+        for k, ed in list(edges.items()):
+            keep = max(1, int((ed.seq_out >= 0).sum(axis=-1).max()))
+            edges[k] = base.Edge(seq_out=ed.seq_out[:, :keep], seq_in=ed.seq_in[:, :keep], ts_recv=ed.ts_recv[:, :keep])
     pdrop = spec.get("drop_tail", 0)
     if pdrop:
         # the last messages of a connection are never consumed (unconsumed messages form a suffix, as in every graph rex itself produces)
